@@ -67,6 +67,7 @@ struct ctx {                 /* one interpreter (one per thread in thread mode) 
   int cb_calls;
   uint64_t cb_reject_mask;   /* reject the k-th call (bit k-1) */
   char *cb_reject_path;      /* reject this exact path */
+  char *cb_del_trigger[8]; char *cb_del_victim[8]; int cb_ndel;   /* vanish: unlink victim when the callback sees trigger */
   char *cb_late_path[32];    /* late-bound content: written when the callback sees the path */
   char *cb_late_data[32];
   size_t cb_late_len[32];
@@ -175,6 +176,8 @@ static bool the_callback(const char *filename, const void *data) {
   char absname[8192];
   if (filename[0] != '/') { char cwd[4096]; if (!getcwd(cwd, sizeof cwd)) cwd[0] = 0; snprintf(absname, sizeof absname, "%s/%s", cwd, filename); }
   else snprintf(absname, sizeof absname, "%s", filename);
+  for (int i = 0; i < c->cb_ndel; i++)
+    if (samepath(c->cb_del_trigger[i], absname)) unlink(c->cb_del_victim[i]);
   for (int i = 0; i < c->cb_nlate; i++)
     if (samepath(c->cb_late_path[i], absname))
       wfile(filename, c->cb_late_data[i], c->cb_late_len[i]);
@@ -200,6 +203,8 @@ static void cb_reset(struct ctx *c) {
   c->cb_reject_mask = 0; free(c->cb_reject_path); c->cb_reject_path = NULL;
   for (int i = 0; i < c->cb_nlate; i++) { free(c->cb_late_path[i]); free(c->cb_late_data[i]); }
   c->cb_nlate = 0;
+  for (int i = 0; i < c->cb_ndel; i++) { free(c->cb_del_trigger[i]); free(c->cb_del_victim[i]); }
+  c->cb_ndel = 0;
 }
 static void jcblog(struct ctx *c) {
   FILE *o = c->out;
@@ -337,6 +342,7 @@ static int run_cmd(struct ctx *c, char **t, int nt) {
   if (!strcmp(op, "cbreset")) { cb_reset(c); return 0; }
   if (!strcmp(op, "cbrejectk")) { c->cb_reject_mask = strtoull(ARG(1), NULL, 10); return 0; }
   if (!strcmp(op, "cbrejectpath")) { free(c->cb_reject_path); c->cb_reject_path = tokstr(ARG(1), NULL); return 0; }
+  if (!strcmp(op, "cbdel")) { if (c->cb_ndel < 8) { int i = c->cb_ndel++; c->cb_del_trigger[i] = tokstr(ARG(1), NULL); c->cb_del_victim[i] = tokstr(ARG(2), NULL); } return 0; }
   if (!strcmp(op, "cblate")) { if (c->cb_nlate < 32) { int i = c->cb_nlate++; c->cb_late_path[i] = tokstr(ARG(1), NULL);
       c->cb_late_data[i] = tokstr(ARG(2), &c->cb_late_len[i]); if (!c->cb_late_data[i]) c->cb_late_data[i] = strdup(""); } return 0; }
 
